@@ -1600,6 +1600,7 @@ Section TopLevel.
   Lemma pres_solve stmts start : pres (solve kinds G R stmts start).
   Proof.
     unfold solve. apply pres_bind; [apply pres_iterM; intros; apply pres_outer_statement|intros _].
+    apply pres_bind; [apply pres_iterM; intros; apply pres_outer_statement|intros _].
     destruct start; [|apply pres_fail].
     apply pres_bind; [apply pres_push|intros v0]. apply pres_bind; [apply pres_push|intros st0].
     apply pres_bind; [apply pres_var_ty|intros t]. apply pres_or_else_err.
@@ -1745,3 +1746,36 @@ Ltac prs1 :=
   | |- pres (match ?x with _ => _ end) => destruct x
   end.
 Ltac prs := repeat prs1.
+
+(* ------------------------------------------------------------------ the order in which solve checks the statements *)
+(* since /repo 3c0758d: the type declarations (blobs and enums) once, in the order of the file, then all the statements *)
+Definition check_order (stmts : list stmt) : list stmt := filter is_type_decl stmts ++ stmts.
+
+Lemma iterM_app {A} (f : A -> M unit) l1 l2 s : iterM f (l1 ++ l2) s = (iterM f l1 ;;; iterM f l2) s.
+Proof.
+  revert s. induction l1 as [|x l1 IH]; intros s; cbn [app iterM]; [reflexivity|].
+  unfold bind. destruct (f x s) as [[u s1]| | |]; try reflexivity. rewrite IH. reflexivity.
+Qed.
+
+Lemma solve_order kinds G R stmts start s :
+  solve kinds G R stmts start s =
+  (iterM (fun st => outer_statement kinds G R st ctx_new) (check_order stmts) ;;;
+   match start with
+   | Some v =>
+     void <- push_type HVoid ;;
+     start <- push_type (HFn [] void PUndefined) ;;
+     t <- var_ty kinds (v_id v) ;;
+     or_else_err (unify G (v_def v) t start ;;; ret tt) KMismatch (v_def v)
+   | None => fail KExotic (span_zero 0)
+   end) s.
+Proof.
+  unfold solve, check_order. unfold bind at 1. symmetry. unfold bind at 1. rewrite iterM_app. unfold bind at 1.
+  destruct (iterM (fun st => outer_statement kinds G R st ctx_new) (filter is_type_decl stmts) s) as [[u s1]| | |]; reflexivity.
+Qed.
+
+Lemma check_order_no_decl stmts : forallb (fun st => negb (is_type_decl st)) stmts = true -> check_order stmts = stmts.
+Proof.
+  intros H. unfold check_order. replace (filter is_type_decl stmts) with (@nil stmt); [reflexivity|].
+  induction stmts as [|x l IH]; [reflexivity|]. cbn [forallb filter] in *. apply andb_true_iff in H as [H1 H2].
+  destruct (is_type_decl x); [discriminate|auto].
+Qed.
